@@ -291,39 +291,31 @@ Definition r_limits (r : ext) (same_leaf : bool) : Prop :=
 Definition sc_flags_ok (elem1 elem2 indep1 indep2 : bool) : Prop :=
   elem1 = true /\ elem2 = true /\ indep1 = false /\ indep2 = false.
 
-(* the faithful statement: NaN is also accepted (between two different numbers) *)
+(* accepted <-> both elementary, both declared independent=False, and the coefficient inside the
+   limits.  (Before the repair of lib.set_correlation_real -- `abs(r) > 1.0` -- NaN was accepted
+   too; `not abs(r) <= 1.0` rejects it.) *)
 Theorem set_correlation_real_accept_iff r e1 e2 i1 i2 same :
   g_set_correlation_real ENum r e1 e2 i1 i2 same = Ok tt <->
-  sc_flags_ok e1 e2 i1 i2 /\ (r_limits r same \/ (r = ENaN /\ same = false)).
+  sc_flags_ok e1 e2 i1 i2 /\ r_limits r same.
 Proof.
   unfold g_set_correlation_real, sc_flags_ok, r_limits.
   destruct e1, e2, i1, i2; cbn [andb negb];
     try (split; [intros H; discriminate | intros [(A & B & C & D) _]; discriminate]).
   destruct same, r as [q| | |]; crunch; change (powerRZ 2 0) with 1 in *;
     (split; [ intros H; try discriminate; (split; [auto|]);
-              first [ right; split; reflexivity
-                    | left; exists q; split; [reflexivity|split; [unfold Rabs in *; destruct (Rcase_abs q); lra|intros; first [lra|discriminate]]] ]
-            | intros [_ [(q' & E & Hq & Hs)|[E Hs]]]; try discriminate; try reflexivity;
+              (exists q; split; [reflexivity|split; [unfold Rabs in *; destruct (Rcase_abs q); lra|intros; first [lra|discriminate]]])
+            | intros [_ (q' & E & Hq & Hs)]; try discriminate; try reflexivity;
               try (injection E as <-); exfalso;
               first [ specialize (Hs eq_refl); lra
                     | unfold Rabs in *; destruct (Rcase_abs q); lra ] ]).
 Qed.
 
-(* the full-strength statement "accepted only inside the limits" is FALSE: NaN is accepted *)
-Theorem set_correlation_real_nan_refuted :
-  exists r same, g_set_correlation_real ENum r true true false false same = Ok tt /\ ~ r_limits r same.
+(* NaN, +inf, -inf are rejected with ValueError between any two dependent elementary numbers *)
+Theorem set_correlation_real_rejects_non_numbers r same :
+  (forall q, r <> Fin q) -> g_set_correlation_real ENum r true true false false same = Err ValueError.
 Proof.
-  exists ENaN, false. split; [reflexivity|]. intros (q & E & _). discriminate.
-Qed.
-
-(* ... and it is the only exception *)
-Theorem set_correlation_real_accept_iff_numbers r e1 e2 i1 i2 same :
-  r <> ENaN ->
-  (g_set_correlation_real ENum r e1 e2 i1 i2 same = Ok tt <-> sc_flags_ok e1 e2 i1 i2 /\ r_limits r same).
-Proof.
-  intros Hn. rewrite set_correlation_real_accept_iff. split.
-  - intros [A [B|[B _]]]; [auto|contradiction].
-  - intros [A B]; auto.
+  intros H. unfold g_set_correlation_real. destruct same, r as [q| | |]; crunch; try reflexivity;
+    exfalso; eapply H; reflexivity.
 Qed.
 
 Theorem set_correlation_real_reject_exn r e1 e2 i1 i2 same e :
